@@ -11,4 +11,9 @@ MIN_OBLIGATIONS = 10
 
 def build(src, tier):
     out = I.family(src, tier)
+    # the trace wrapper decides from event.ignored: that the core sets it exactly for ignored events (and clears a
+    # stale value first) is part of this property, not only of C02
+    from . import core_targets as K
+    w = K.world_for(src, tier)
+    out += [(w, [K.t_dispatch()])]
     return out
